@@ -248,7 +248,7 @@ static void run_api(const char *script)
   FILE *fp = fopen(script, "r");
   char line[8192], root[4096] = "";
   DIRFILE *D = NULL;
-  int failed = 0;
+  int failed = 0, lineno = 0;
   if (!fp) { printf("IMPL ERR\nN no script\nEND\n"); return; }
   while (!failed && fgets(line, sizeof line, fp)) {
     char *f[6] = {0};
@@ -256,6 +256,7 @@ static void run_api(const char *script)
     char *q = line;
     size_t l = strlen(line);
     while (l && (line[l - 1] == '\n')) line[--l] = 0;
+    lineno++;
     if (!l) continue;
     while (nf < 6 && q) { f[nf++] = q; q = strchr(q, '\t'); if (q) *q++ = 0; }
 #define ARG(k) ((f[k] && strcmp(f[k], "-")) ? f[k] : NULL)
@@ -283,7 +284,7 @@ static void run_api(const char *script)
     } else if (!strcmp(f[0], "AFFIX")) r = gd_alter_affixes(D, atoi(f[1]), ARG(2), ARG(3));
     else if (!strcmp(f[0], "NS")) r = gd_fragment_namespace(D, atoi(f[1]), f[2]) ? 0 : gd_error(D);
     else r = -997;
-    if (r) { printf("IMPL ERR\nN %s failed: %d\nEND\n", f[0], r); failed = 1; }
+    if (r) { printf("IMPL ERR\nN %s failed: %d at %d\nEND\n", f[0], r, lineno); failed = 1; }
   }
   fclose(fp);
   if (!failed && D) show(D, root);
